@@ -67,6 +67,8 @@ var wants = []want{
 	{"pkg/blobserver/stat.go", "selectbefore:Start", "StatBlobsParallelHelper", "stat_helper_checks_before_start"},
 	// diskpacked append: is the index row written (first Set) before the roll-over (first nextPack)?
 	{"pkg/blobserver/diskpacked/diskpacked.go", "callorder:Set<nextPack", "append", "dp_append_index_before_rollover"},
+	// encrypt ReceiveBlob: is the meta blob recorded (first recordMeta, right after it was written) before the index row is set (first Set)?
+	{"pkg/blobserver/encrypt/encrypt.go", "callorder:recordMeta<Set", "ReceiveBlob", "enc_meta_before_index"},
 	// blobpacked: does RemoveBlobs hand the loose store every blob it was given (and not only those without a meta row)?
 	{"pkg/blobserver/blobpacked/blobpacked.go", "removeall:small", "RemoveBlobs", "bp_remove_loose_of_all"},
 	// every handler type registered anywhere under pkg/ (first argument of blobserver.RegisterHandlerConstructor)
@@ -503,7 +505,7 @@ func main() {
 				return true
 			})
 			fmt.Fprintf(&b, "Definition %s : bool := %v.\n", w.coqName, selPos != 0 && startPos != 0 && selPos < startPos)
-		case "callorder:CommitBatch<delete", "callorder:WriteAt<punchHole", "callorder:WriteAt<CopyN", "callorder:Set<nextPack":
+		case "callorder:CommitBatch<delete", "callorder:WriteAt<punchHole", "callorder:WriteAt<CopyN", "callorder:Set<nextPack", "callorder:recordMeta<Set":
 			fd, ok := fi.funcs[w.goName]
 			if !ok {
 				fail(fmt.Errorf("func not found"))
